@@ -102,17 +102,26 @@ Definition node_matches (g : cgraph) (j : jnode) : bool :=
 
 Definition max_layer_of (g : cgraph) : nat := fold_left (fun m kn => Nat.max m (n_layer (snd kn))) g 0.
 
-(* the entry point: equal to the model's, or — max_by_key over a hash map has no fixed
-   tie-break — another node of the (unique) maximal layer when the model repaired it *)
-Definition entry_matches (ix : index) (clamped : Z * nat) (e : Z * Z) : bool :=
+(* the entry point: equal to the model's, or — when the code took the repair path
+   (repair_entry_point: max_by_key over a hash map, no fixed tie-break) — any node of the
+   maximal layer.  [repaired] says whether the code's repair path was taken for this case;
+   it must not be inferred from the model's entry differing from the recorded one, because
+   the model's own tie-break can land on the recorded id. *)
+Definition entry_matches (ix : index) (repaired : bool) (e : Z * Z) : bool :=
   let me := ix_entry ix in
   (Z.eqb (fst me) (fst e) && Nat.eqb (snd me) (Z.to_nat (snd e)))
-  || (negb (Z.eqb (fst me) (fst clamped) && Nat.eqb (snd me) (snd clamped))
+  || (repaired
       && Nat.eqb (snd me) (Z.to_nat (snd e))
       && match clookup (ix_nodes ix) (fst e) with
          | Some n => Nat.eqb (n_layer n) (Z.to_nat (snd e)) && Nat.eqb (n_layer n) (max_layer_of (ix_nodes ix))
          | None => false
          end).
+
+(* load_nodes repairs the entry point iff some listed id has no blob, or the recorded entry
+   is not among the loaded nodes *)
+Definition load_repaired (ids : list Z) (blobs : list (Z * blob)) (ix : index) (recorded : Z) : bool :=
+  existsb (fun id => match blob_lookup blobs id with Missing => true | _ => false end) ids
+  || match clookup (ix_nodes ix) recorded with None => true | Some _ => false end.
 
 Definition check_load (co : lcase * lobs) : bool :=
   let '(c, o) := co in
@@ -123,7 +132,8 @@ Definition check_load (co : lcase * lobs) : bool :=
     list_eqb Z.eqb (ix_ids ix) oids
     && Nat.eqb (List.length (ix_nodes ix)) (List.length onodes)
     && forallb (node_matches (ix_nodes ix)) onodes
-    && entry_matches ix (clamp_entry (mkConfig (Z.to_nat dim) (Z.to_nat ml)) (fst entry, Z.to_nat (snd entry))) oentry
+    && entry_matches ix (load_repaired ids (map (fun kb : Z * jblob => (fst kb, mk_blob (snd kb))) blobs) ix (fst entry))
+                     oentry
   | _, _ => false
   end.
 
@@ -145,4 +155,4 @@ Definition check_remove (co : rcase * robs) : bool :=
   && list_eqb Z.eqb (ix_ids ix) oids
   && Nat.eqb (List.length (ix_nodes ix)) (List.length onodes)
   && forallb (node_matches (ix_nodes ix)) onodes
-  && (match onodes with [] => true | _ => entry_matches ix (fst entry, Z.to_nat (snd entry)) oentry end).
+  && (match onodes with [] => true | _ => entry_matches ix (Z.eqb (fst entry) id) oentry end).
